@@ -233,7 +233,7 @@ U('make_segmentation', fam_plm, 'make_segmentation', ['C02', 'C03', 'C17'], atta
 
 U('make_segmentation_par', fam_plm, 'make_segmentation_par', ['CXX_not_registered_yet'], stubs=['make_segmentation'],
   assumed=['make_segmentation4', 'ms_out2', 'pgmv_omp_get_num_procs', 'pgmv_omp_get_max_threads'], decls=['plm_ghost', 'feed_ghost', 'feed_ghost2', 'par_ghost'],
-  lemmas=['lemma_in_sorted'], insts=PLM_K[:1], spec=('plm.spec',), timeout=1800, partition=16, mem_gb=10, unwind=22, mode='W',
+  lemmas=['lemma_in_sorted'], insts=PLM_K[:1], spec=('plm.spec',), timeout=900, partition=16, mem_gb=12, unwind=22, mode='W', solver='kissat',
   cases=[('PGMV_PAR', str(p_)) for p_ in (2, 3, 16, 20)], drop_checks=['--conversion-check'],
   assumptions=[FEED_NOTE, 'width-complete per case: the chunk loop is unwound for a fixed number of chunks (cases 2, 3, 16, 20 quick; the duplicate-skipping loop is closed by a loop contract)',
                'OpenMP: the parallel loop is verified as a sequential loop (iterations write disjoint results[i] and a reduction variable)'])
